@@ -9,6 +9,9 @@ import GridVerif.Props.C01.Closed
 import GridVerif.Props.C01.Strip
 import GridVerif.Props.C01.Shape
 import GridVerif.Props.C01.StripShape
+import GridVerif.Props.C01.Ctor
+import GridVerif.Props.C01.CtorSeries
+import GridVerif.Props.C01.Init
 
 #print axioms GridVerif.C01.trapezoid_exact
 #print axioms GridVerif.C01.midpoint_exact
@@ -95,3 +98,60 @@ import GridVerif.Props.C01.StripShape
 #print axioms GridVerif.C01.trefethencc_shape
 #print axioms GridVerif.C01.trefethen_strip_shape
 #print axioms GridVerif.C01.trefethenstripcc_shape
+#print axioms GridVerif.C01.trapezoidal_ctor_eq_make
+#print axioms GridVerif.C01.simpson_ctor_eq_make
+#print axioms GridVerif.C01.midpoint_ctor_eq_make
+#print axioms GridVerif.C01.uniforminteger_ctor_eq_make
+#print axioms GridVerif.C01.chebyshevlobatto_ctor_eq_make
+#print axioms GridVerif.C01.rectanglesine_ctor_eq_make
+#print axioms GridVerif.C01.tanhsinh_ctor_eq_make
+#print axioms GridVerif.C01.expsinh_ctor_eq_make
+#print axioms GridVerif.C01.logexpsinh_ctor_eq_make
+#print axioms GridVerif.C01.expexp_ctor_eq_make
+#print axioms GridVerif.C01.singletanh_ctor_eq_make
+#print axioms GridVerif.C01.singleexp_ctor_eq_make
+#print axioms GridVerif.C01.singlearcsinhexp_ctor_eq_make
+#print axioms GridVerif.C01.gausslegendre_ctor_eq_make
+#print axioms GridVerif.C01.gausschebyshev_ctor_eq_make
+#print axioms GridVerif.C01.gausschebyshevtype2_ctor_eq_make
+#print axioms GridVerif.C01.gausslaguerre_ctor_eq_make
+#print axioms GridVerif.C01.trefethengeneral_ctor_eq_make
+#print axioms GridVerif.C01.trefethenstripgeneral_ctor_eq_make
+#print axioms GridVerif.C01.dergstripAt_eq
+#print axioms GridVerif.C01.cc_gen_points_eq
+#print axioms GridVerif.C01.cc_gen_weights_eq
+#print axioms GridVerif.C01.clenshawcurtis_ctor_eq_make
+#print axioms GridVerif.C01.fejer1_gen_points_eq
+#print axioms GridVerif.C01.fejer1_gen_weights_eq
+#print axioms GridVerif.C01.fejerfirst_ctor_eq_make
+#print axioms GridVerif.C01.fejer2_gen_points_eq
+#print axioms GridVerif.C01.fejer2_gen_weights_eq
+#print axioms GridVerif.C01.fejersecond_ctor_eq_make
+#print axioms GridVerif.C01.onedgrid_init_eq_model
+#print axioms GridVerif.C01.oneDGrid_ok_iff
+#print axioms GridVerif.C01.onedgrid_init_accepts_iff
+#print axioms GridVerif.C01.onedgrid_init_rejects_below
+#print axioms GridVerif.C01.onedgrid_init_rejects_above
+#print axioms GridVerif.C01.onedgrid_init_no_domain
+#print axioms GridVerif.C01.onedgrid_init_empty
+#print axioms GridVerif.C01.onedgrid_init_descending
+#print axioms GridVerif.C01.trapezoidal_ctor_accepts_iff
+#print axioms GridVerif.C01.midpoint_ctor_accepts_iff
+#print axioms GridVerif.C01.uniforminteger_ctor_accepts_iff
+#print axioms GridVerif.C01.chebyshevlobatto_ctor_accepts_iff
+#print axioms GridVerif.C01.rectanglesine_ctor_accepts_iff
+#print axioms GridVerif.C01.clenshawcurtis_ctor_accepts_iff
+#print axioms GridVerif.C01.fejerfirst_ctor_accepts_iff
+#print axioms GridVerif.C01.fejersecond_ctor_accepts_iff
+#print axioms GridVerif.C01.simpson_ctor_accepts_iff
+#print axioms GridVerif.C01.tanhsinh_ctor_accepts_iff
+#print axioms GridVerif.C01.expsinh_ctor_accepts_iff
+#print axioms GridVerif.C01.logexpsinh_ctor_accepts_iff
+#print axioms GridVerif.C01.expexp_ctor_accepts_iff
+#print axioms GridVerif.C01.singletanh_ctor_accepts_iff
+#print axioms GridVerif.C01.singleexp_ctor_accepts_iff
+#print axioms GridVerif.C01.singlearcsinhexp_ctor_accepts_iff
+#print axioms GridVerif.C01.trefethencc_ctor_eq_make
+#print axioms GridVerif.C01.trefethenstripcc_ctor_eq_make
+#print axioms GridVerif.C01.trefethengc2_ctor_eq_make
+#print axioms GridVerif.C01.trefethenstripgc2_ctor_eq_make
